@@ -191,4 +191,17 @@ theorem hmac_eq (key msg : List UInt8) (hk : key.length < 2 ^ 61) (hm : msg.leng
   simp only [List.foldl_cons, List.foldl_nil, List.flatten_cons, List.flatten_nil, List.append_nil] at h2
   rw [h1.1, h2.1, h2.2.2.2.2, all_inb _ 64 hkl]
   rfl
+
+/-- the bytes of the buffer at and beyond the buffer position are not part of the abstract state -/
+theorem inv_replace_stale (m : List UInt8) (p : Sha) (h : Inv m p) (junk : List UInt8)
+    (hj : junk.length = 64 - bufferPos p) :
+    Inv m { p with buffer := p.buffer.take (bufferPos p) ++ junk } := by
+  obtain ⟨full, tail, rest, hm, hfull, hbuf, hlen, hpos, hst, hcnt, hok⟩ := h
+  have hbp : bufferPos p = tail.length := by
+    rw [bufferPos_eq, hcnt, hm, List.length_append]; omega
+  refine ⟨full, tail, junk, hm, hfull, ?_, ?_, ?_, hst, hcnt, hok⟩
+  · simp only []; rw [hbuf, hbp, List.take_left']; rfl
+  · omega
+  · omega
+
 end Nstd.Sha
